@@ -17,9 +17,9 @@ LEVEL = "exploration"
 
 PLAN = {
     "quick": {"hashseeds": 12, "shards": 4, "generated": 240, "skip": ["1gid.cif.gz"], "cli_all_variants": False,
-              "timeout": 600, "light_hashseeds": 16, "light_max_cost": 150_000, "adapter_generated": 36, "derived_rounds": 1, "unifier_generated": 8, "pairfuzz": 10, "crossmap": 4},
+              "timeout": 600, "light_hashseeds": 16, "light_max_cost": 150_000, "adapter_generated": 36, "derived_rounds": 1, "unifier_generated": 8, "pairfuzz": 10, "crossmap": 4, "deep": 1, "deep_hashseeds": 2},
     "thorough": {"hashseeds": 32, "shards": 4, "generated": 2000, "skip": [], "cli_all_variants": True,
-                 "timeout": 5400, "light_hashseeds": 48, "light_max_cost": 150_000, "adapter_generated": 300, "derived_rounds": 4, "unifier_generated": 60, "pairfuzz": 80, "crossmap": 20},
+                 "timeout": 5400, "light_hashseeds": 48, "light_max_cost": 150_000, "adapter_generated": 300, "derived_rounds": 4, "unifier_generated": 60, "pairfuzz": 80, "crossmap": 20, "deep": 3, "deep_hashseeds": 3},
 }
 
 ASSUMPTIONS = [
@@ -201,6 +201,19 @@ def generated_items(tier, seed):
             st = structures.gen_structure(s, max_stems=6, max_len=3, knotted_bias=0.7)
         out.append({"id": "gen/%d" % i, "type": "bpseq", "triples": st["triples"],
                     "solvers": ["cbc", "none"] if i % 3 == 0 else ["cbc"], "graphviz": i % 6 == 1, "cost": 20000})
+    return out
+
+
+def deep_items(tier, seed):
+    """Listings that are dear on the unchanged tree: one knotted group of ten stems (10! orderings, about two minutes
+    each).  Computed once per interpreter by a few interpreters of their own, alongside the main pass - the size at
+    which an 'optimisation' that samples or truncates the enumeration would first act."""
+    out = []
+    for i in range(PLAN[tier].get("deep", 0)):
+        s = rng.stream(NAME, tier, seed, i, "deep")
+        st = structures.gen_band(s, 10)
+        out.append({"id": "deep/%d" % i, "type": "bpseq", "triples": st["triples"], "solvers": ["cbc"],
+                    "only": ["all_dot_brackets"], "reps": 1, "graphviz": False, "cost": 10_000_000})
     return out
 
 
@@ -407,8 +420,8 @@ def run_context(jobs, item_id, kind, tmp, tag):
 
 def minimise(item, kind, seeds_pair, tmp):
     """Shrink a generated structure while the two interpreters still disagree on `kind`."""
-    if item["type"] != "bpseq":
-        return item, 0
+    if item["type"] != "bpseq" or item.get("only"):
+        return item, 0  # (a dear listing is reported as it is: every shrinking step would cost minutes)
     best = item
     tried = 0
     improved = True
@@ -440,6 +453,20 @@ def check(tier, seed, workers):
              + crossmap_items(tier, seed))
     timeout = float(os.environ.get("VERIF_BUDGET_S") or 0) * 4 or plan["timeout"]
     context = {}
+    # the dear listings run in interpreters of their own, from now until the other passes are done
+    deep = deep_items(tier, seed)
+    deep_seeds = [str((seed * 1009 + 5000 + j) % 4294967296) for j in range(plan.get("deep_hashseeds", 0))]
+    deep_result = {}
+    deep_thread = None
+    if deep and deep_seeds:
+        import threading
+
+        def run_deep():
+            deep_result["out"] = explore(deep, deep_seeds, len(deep), len(deep) * len(deep_seeds), max(timeout, 1500),
+                                         os.path.join(tmp, "deep"))
+
+        deep_thread = threading.Thread(target=run_deep)
+        deep_thread.start()
     cells, nontrivial, rows_total, failures = explore(items, seeds, plan["shards"], workers, timeout, tmp,
                                                      shuffle_seed=seed, context=context)
     # more hash seeds on the cheap part of the workload (small files, tools, generated structures): a
@@ -460,6 +487,15 @@ def check(tier, seed, workers):
         for (hs, b), c in ctx2.items():
             context[(hs, "light-%d" % b)] = c
         rows_total += rows2
+    if deep_thread is not None:
+        deep_thread.join()
+        c3, nt3, rows3, f3 = deep_result.get("out") or ({}, {}, 0, ["deep pass: no result"])
+        for key, m in c3.items():
+            cells.setdefault(key, {}).update(m)
+            nontrivial[key] = nontrivial.get(key, False) or nt3.get(key, False)
+        rows_total += rows3
+        failures = list(failures) + list(f3)
+        items = items + deep
     if failures:
         print("HARNESS-ERROR: C14 child interpreters failed: %s" % "; ".join(failures[:4]))
         return 2
@@ -580,7 +616,9 @@ def check(tier, seed, workers):
                           "such a difference is replayed by re-running the two complete interpreter contexts",
         "items": {"corpus_file_x_gap_setting": sum(1 for x in items if x["type"] == "file"),
                   "other_command_line_tools": sum(1 for x in items if x["type"] == "tool"),
-                  "generated_structures": sum(1 for x in items if x["type"] == "bpseq"),
+                  "generated_structures": sum(1 for x in items if x["type"] == "bpseq" and not x.get("only")),
+                  "dear_listings_one_group_of_ten_stems": {"items": len(deep), "interpreters_each": len(deep_seeds),
+                                                           "computed": "all_dot_brackets, once per interpreter"},
                   "adapter_runs_with_generated_conflicting_annotations": sum(1 for x in items if x["type"] == "adapter_gen"),
                   "derived_pdb_files_altloc_icode_models_duplicates": sum(1 for x in items if x["type"] == "derived")},
         "cells": len(cells),
